@@ -17,7 +17,7 @@ package ecs
 //@   && (forall e uint8 :: e > uint8(m.maxEventType) ==> !m.hasObservers[e] && len(m.observers[e]) == 0)
 //@   && (forall e uint8 :: !m.hasObservers[e] ==> len(m.observers[e]) == 0)
 //@   && (len(m.indices) == 0 ==> (forall e uint8 :: !m.hasObservers[e]))
-//@   && (forall e uint8, k int :: 0 <= k && k < len(m.observers[e]) ==> m.observers[e][k] != nil)
+//@   && (forall e int, k int :: 0 <= e && e < 256 && 0 <= k && k < len(m.observers[e]) ==> m.observers[e][k] != nil)
 
 //@ func (*observerManager).Reset
 //@   serves C16 C08
